@@ -44,6 +44,10 @@ def rejects_nonpositive(txt, p):
 
 
 def run(repo, res):
+    from . import wiring as _w
+
+    res.rule("R35.8", "None-defaults of public parameters are replaced through `is None`, never through `param or DEFAULT` (which also swallows an explicit 0 that must be rejected or used)")
+    _w.falsy_defaults(repo, res, "R35.8")
     from . import loopdef
 
     res.rule("R35.7", "valid option values never crash: a local bound only inside `for _ in range(<parameter>)` and read after the loop requires every call site to be control-dependent on `<argument> > 0` (e.g. rescaling_iterations=0 must skip rescaling, not raise UnboundLocalError)")
@@ -234,7 +238,7 @@ def _handled_by_encloser(repo, f, exc_name):
     return calls > 0
 
 
-VARIANTS = [dict(v, rule="R35.7") for v in __import__("sa.rules.loopdef", fromlist=["VARIANTS"]).VARIANTS] + [dict(v, rule="R35.6") for v in __import__("sa.rules.wiring", fromlist=["VARIANTS"]).VARIANTS] + [
+VARIANTS = [dict(v, rule="R35.8") for v in __import__("sa.rules.wiring", fromlist=["VARIANTS_FALSY"]).VARIANTS_FALSY] + [dict(v, rule="R35.7") for v in __import__("sa.rules.loopdef", fromlist=["VARIANTS"]).VARIANTS] + [dict(v, rule="R35.6") for v in __import__("sa.rules.wiring", fromlist=["VARIANTS"]).VARIANTS] + [
     dict(name="no-rate-guard", mod="core", expect="fire", rule="R35.1",
          old="        if mutation_rate is not None and not mutation_rate > 0.0:\n            raise ValueError(\"Mutation rate must be positive\")\n", new=""),
     dict(name="rate-guard-le", mod="core", expect="fire", rule="R35.1",
